@@ -77,32 +77,40 @@ Proof.
 Qed.
 
 (* ------------------------------------------------------------------ permutation operators *)
-(* PermutationLinearOperator.to: the index tensors are handed over untouched (same storages, same dtypes, nothing
-   allocated), only the nominal dtype changes *)
-Theorem perm_to_keeps_indices defdt f d dev ch dn nd at_ n o' n' :
-  wfb (AOp CPermutation ch dn nd at_) = true ->
-  meth_call defdt (S f) (MTo d dev) (AOp CPermutation ch dn nd at_) n = Some (o', n') ->
-  o' = AOp CPermutation ch dn nd (perm_attrs d (dflt_attrs defdt CPermutation)) /\ n' = n.
+(* Permutation.to / TransposePermutation.to (any dtype / device request): the arguments - the index tensors perm / inv_perm -
+   are handed over untouched (same storages, same integer dtype, nothing allocated); only the dtype keyword is rewritten
+   (kept when no dtype is requested) *)
+Theorem perm_to_keeps_indices defdt f d dev c ch dn nd at_ n o' n' :
+  is_perm_cls c = true -> wfb (AOp c ch dn nd at_) = true ->
+  meth_call defdt (S f) (MTo d dev) (AOp c ch dn nd at_) n = Some (o', n') ->
+  o' = AOp c ch dn (nd_to c d dev nd) (dflt_attrs defdt c) /\ n' = n.
 Proof.
-  intros W E. rewrite meth_call_S in E. cbv zeta in E.
-  change (guarded CPermutation) with false in E. change (cls_eqb CPermutation CCat) with false in E.
-  change (cls_eqb CPermutation CZero) with false in E. change (cls_eqb CPermutation CPermutation) with true in E.
-  cbv iota in E. exact (branch_to_perm defdt d ch dn nd at_ n o' n' W E).
+  intros P W E. rewrite meth_call_S in E. cbv zeta in E.
+  assert (G : guarded c = false /\ cls_eqb c CCat = false /\ cls_eqb c CZero = false)
+    by (destruct (perm_cls_cases c P) as [-> | ->]; repeat split; reflexivity).
+  destruct G as (G & CAT & ZERO). rewrite G, CAT, ZERO, P in E.
+  exact (branch_to_permcls defdt d dev c ch dn nd at_ n o' n' P W E).
 Qed.
 
-(* the known finding at the level of the model: TransposePermutationLinearOperator has no to() of its own, the generic
-   one rebuilds it through the constructor, which hard-wires float32: the result never reports the requested dtype *)
-Theorem transperm_to_resets_nominal defdt f d dev ch dn nd at_ n o' n' :
-  wfb (AOp CTransposePermutation ch dn nd at_) = true -> ch = [] ->
-  meth_call defdt (S f) (MTo d dev) (AOp CTransposePermutation ch dn nd at_) n = Some (o', n') ->
-  dtype_of o' = Some F32.
+(* ... and the result of to(d) / type(d) reports exactly the requested dtype (the repaired findings: the nominal dtype used
+   to be reset to float32 by every rebuild, TransposePermutation.to ignored the request) *)
+Theorem perm_conversion_sets_dtype defdt fuel m d c ch dn nd at_ n o' n' :
+  is_perm_cls c = true ->
+  (exists dev, m = MTo (Some d) dev) \/ m = MType d ->
+  wfb (AOp c ch dn nd at_) = true -> losslessb defdt (AOp c ch dn nd at_) = true -> safeb m (AOp c ch dn nd at_) = true ->
+  meth_call defdt fuel m (AOp c ch dn nd at_) n = Some (o', n') ->
+  dtype_of o' = Some d.
 Proof.
-  intros W -> E. rewrite meth_call_S in E. cbv zeta in E.
-  change (guarded CTransposePermutation) with false in E. change (cls_eqb CTransposePermutation CCat) with false in E.
-  change (cls_eqb CTransposePermutation CZero) with false in E.
-  change (cls_eqb CTransposePermutation CPermutation) with false in E. cbv iota in E. simpl map_st in E.
-  rewrite wfb_op in W. apply andb_prop in W as [NOK _].
-  cbv iota beta in E. rewrite (again_ok defdt _ _ _ _ _ NOK) in E. inversion E; subst. reflexivity.
+  intros P M W L S E. destruct (meth_call_conv defdt fuel m _ n o' n' W L S E) as [C _].
+  rewrite <- dtype_of_strip, C.
+  assert (DT : forall ch' nd', dtype_of (AOp c ch' dn (set_key k_dtype (VDtype d) nd') (dflt_attrs defdt c)) = Some d).
+  { intros ch' nd'. destruct (perm_cls_cases c P) as [-> | ->]; simpl; rewrite lookup_set_key, Z.eqb_refl; reflexivity. }
+  assert (G : guarded c = false /\ cls_eqb c CCat = false /\ rebuilt_kw c = true /\ keeps_dt c = true)
+    by (destruct (perm_cls_cases c P) as [-> | ->]; repeat split; reflexivity).
+  destruct G as (G & CAT & RK & KD).
+  destruct M as [[dev ->] | ->]; unfold conv.
+  - rewrite conv_to_op, G, CAT, RK, (nd_to_perm c (Some d) dev nd P). simpl. apply DT.
+  - unfold conv_type. rewrite KD. apply DT.
 Qed.
 
 (* ------------------------------------------------------------------ torch's default dtype is not an input *)
@@ -190,13 +198,14 @@ Proof.
       destruct (cls_eqb c CZero).
       { destruct (keep_or k_dtype _ nd); [|reflexivity]. destruct (keep_or k_device _ nd); [|reflexivity].
         now rewrite (ctor_defdt d1 d2). }
-      destruct (cls_eqb c CPermutation); [|apply GEN].
-      destruct ch as [|[p| |] [|[q| |] [|? ?]]]; try reflexivity.
-      destruct (lookup k_validate_args nd); [|reflexivity]. now rewrite AG.
+      destruct (is_perm_cls c); [|apply GEN].
+      destruct (keep_or k_dtype _ nd); [apply AG|reflexivity].
   - destruct (cls_eqb c CIdentity).
     { destruct (lookup k_diag_shape nd); [|reflexivity]. destruct (lookup k_batch_shape nd); [|reflexivity].
       destruct (lookup k_device nd); [|reflexivity]. now rewrite (ctor_defdt d1 d2). }
-    destruct (cls_eqb c CTransposePermutation); [reflexivity|].
+    destruct (cls_eqb c CTransposePermutation); [apply AG|].
+    destruct (cls_eqb c CPermutation).
+    { rewrite (map_st_ext _ _ (OA MClone)). destruct (map_st _ ch n) as [[ch' n']|]; [apply AG|reflexivity]. }
     destruct (cls_eqb c CZero); [|apply GEN].
     destruct (lookup k_device nd); [|reflexivity]. now rewrite (ctor_defdt d1 d2).
 Qed.
